@@ -1,6 +1,6 @@
 // SPDX-License-Identifier: MIT OR Apache-2.0
 
-use std::marker::PhantomData;
+use std::sync::Mutex as StdMutex;
 
 use p2panda_core::traits::{Digest, OperationId};
 use p2panda_store::Transaction;
@@ -16,7 +16,14 @@ pub struct Orderer<T, ID, S> {
     inner: Mutex<CausalOrderer<ID, S>>,
     store: S,
     notify: Notify,
-    _marker: PhantomData<T>,
+
+    /// Item which was taken from the ready queue by a call to `next` and has not been handed to the
+    /// caller yet.
+    ///
+    /// Users like the buffered stream layer drop the future returned by `next` whenever new input
+    /// arrives first. The item is parked here _before_ the queue update is committed, so that it is
+    /// returned by the following call instead of getting lost when that happens.
+    taken: StdMutex<Option<T>>,
 }
 
 impl<T, ID, S> Orderer<T, ID, S>
@@ -31,8 +38,21 @@ where
             inner: Mutex::new(inner),
             store,
             notify: Notify::new(),
-            _marker: PhantomData,
+            taken: StdMutex::new(None),
         }
+    }
+}
+
+impl<T, ID, S> Orderer<T, ID, S> {
+    fn park(&self, item: T) {
+        *self.taken.lock().unwrap_or_else(|err| err.into_inner()) = Some(item);
+    }
+
+    fn unpark(&self) -> Option<T> {
+        self.taken
+            .lock()
+            .unwrap_or_else(|err| err.into_inner())
+            .take()
     }
 }
 
@@ -71,6 +91,11 @@ where
         loop {
             let inner = self.inner.lock().await;
 
+            // Hand out the item an earlier, cancelled call has left behind.
+            if let Some(operation) = self.unpark() {
+                return Ok(operation);
+            }
+
             let permit = self
                 .store
                 .begin()
@@ -82,21 +107,37 @@ where
                 .await
                 .map_err(|err| (None, OrdererError::OrdererStore(err)))?
             {
-                self.store
-                    .commit(permit)
-                    .await
-                    .map_err(|err| (None, OrdererError::Transaction(err)))?;
-
-                return match self
+                // Fetch the operation within the transaction and park it in the processor before
+                // the queue update is committed: there is no await point left between "the item
+                // has left the queue" and "the item can be handed out" where dropping this future
+                // would lose it.
+                let found = match self
                     .store
-                    .get_operation(&id)
+                    .get_operation_tx(&id)
                     .await
                     .map_err(OrdererError::OperationStore)
                 {
-                    Ok(Some(operation)) => Ok(operation),
+                    Ok(Some(operation)) => {
+                        self.park(operation);
+                        Ok(())
+                    }
                     Ok(None) => Err((None, OrdererError::StoreInconsistency(id))),
                     Err(err) => Err((None, err)),
                 };
+
+                if let Err(err) = self.store.commit(permit).await {
+                    self.unpark();
+                    return Err((None, OrdererError::Transaction(err)));
+                }
+
+                found?;
+
+                match self.unpark() {
+                    Some(operation) => return Ok(operation),
+                    // Not reachable: the slot was filled above and only `next` empties it, which
+                    // can't run concurrently as we're holding the lock.
+                    None => continue,
+                }
             }
 
             self.notify.notified().await;
